@@ -3,4 +3,4 @@ CONSTANTS Procs = {1, 2}
           MaxCalls = 2
           FixBeginOrder = TRUE
           defaultInitValue = defaultInitValue
-INVARIANTS Conservation NoPanic TxnImpliesHeld
+INVARIANTS Conservation NoPanic TxnImpliesHeld ClosedUnregistered DoneFree
